@@ -250,7 +250,21 @@ def r5_send_sync(w):
     return r
 
 
-RULES = [r1_no_ambient, r2_no_shared_state, r3_no_hash_order, r4_per_call_state, r5_send_sync]
-for _f in RULES:
+def r6_cli_prints_the_result(w):
+    """= C16.R3: across processes the result a user sees is what the CLI writes to standard output.  It depends on nothing but text and options
+    only if the library result reaches stdout through `print!("{}")` unfiltered - an environment-sensitive stream (seed C17/4A: `anstream::stdout()`
+    strips escape sequences depending on NO_COLOR / CLICOLOR_FORCE / whether stdout is a terminal) makes identical calls in two processes differ."""
+    from rules import c16
+    rs = c16.r3_bytes_out(w)
+    rs.rule = 'C17.R6'
+    for f in rs.findings:
+        f.rule = 'C17.R6'
+        f.key = f.key.replace('C16.R3|', 'C17.R6|', 1)
+    return rs
+
+
+RULES = [r1_no_ambient, r2_no_shared_state, r3_no_hash_order, r4_per_call_state, r5_send_sync, r6_cli_prints_the_result]
+for _f in RULES[:5]:
     _f.needs = ('core',)
+r6_cli_prints_the_result.needs = ('cli', 'core')
 MATRIX_RULES = RULES
